@@ -174,7 +174,10 @@ def generate(rng, tier, index):
     y = r.random()
     plan['fault'] = None
     if plan['driver'] == 'connection' and y < 0.35:
-        plan['fault'] = {'kind': r.choice(['timeout', 'reset', 'eof_mid']),
+        plan['fault'] = {'kind': r.choice(['timeout', 'reset', 'eof_mid',
+                                           'timeout', 'reset', 'eof_mid',
+                                           'handshake', 'send_reset',
+                                           'shutdown_enotconn']),
                          'at': r.choice([1, 4, 8, 9, 30, 100, 250, 600])}
     return plan
 
@@ -378,8 +381,16 @@ def run_connection(plan, stream, chunks, fault):
             data = stream[:max(0, len(stream) - fault['at'])]
         conn.feed(data, chunks)
         conn.eof = True
+        before = W.dump()
         if fault and fault['kind'] in ('timeout', 'reset'):
             conn.fault_recv = (fault['kind'], min(fault['at'], len(data)))
+        if fault and fault['kind'] == 'handshake':
+            conn.fault_handshake = True
+        if fault and fault['kind'] == 'send_reset':
+            conn.fault_send = 'reset'
+        if fault and fault['kind'] == 'shutdown_enotconn':
+            import errno
+            conn.fault_shutdown = errno.ENOTCONN
         err = None
         try:
             s.run()
@@ -387,7 +398,7 @@ def run_connection(plan, stream, chunks, fault):
             err = '%s: %s' % (type(e).__name__, e)
         return {'sent': conn.take_sent(), 'error': err,
                 'entered': W.spy.calls, 'closed': conn.closed,
-                'data': data,
+                'data': data, 'before': before,
                 'log': [m for (n, lv, m, ex) in kernel.LOG.records
                         if 'Failure handling message loop' in m]}, W.dump()
     finally:
@@ -398,7 +409,8 @@ def execute(plan):
     probes = dict((p, 0) for p in PROBES)
     viol = []
     faults = {'chunk': 0, 'trickle': 0, 'garbage': 0, 'timeout': 0,
-              'reset': 0, 'eof_midframe': 0}
+              'reset': 0, 'eof_midframe': 0, 'handshake_failure': 0,
+              'reset_on_send': 0, 'shutdown_not_connected': 0}
 
     def flag(oracle, **det):
         viol.append({'sig': {'oracle': oracle, 'why': det.get('why')},
@@ -604,19 +616,37 @@ def execute(plan):
         ra, dump_a = run_connection(plan, stream, plan['chunks_a'], fault)
         if fault:
             faults[{'timeout': 'timeout', 'reset': 'reset',
-                    'eof_mid': 'eof_midframe'}[fault['kind']]] += 1
-            probes[{'timeout': 'timeout_fault', 'reset': 'reset_fault',
-                    'eof_mid': 'eof_mid_frame'}[fault['kind']]] += 1
+                    'eof_mid': 'eof_midframe',
+                    'handshake': 'handshake_failure',
+                    'send_reset': 'reset_on_send',
+                    'shutdown_enotconn': 'shutdown_not_connected'}[
+                        fault['kind']]] += 1
+            if fault['kind'] in ('timeout', 'reset', 'eof_mid'):
+                probes[{'timeout': 'timeout_fault', 'reset': 'reset_fault',
+                        'eof_mid': 'eof_mid_frame'}[fault['kind']]] += 1
         if ra['error']:
             flag('run-raised', why=ra['error'].split(':')[0],
                  error=ra['error'])
         if not ra['closed']:
             flag('connection-not-closed-at-end', why=None)
         cframes, _ = monitors.split_frames(ra['data'])
-        if fault and fault['kind'] in ('timeout', 'reset'):
+        if fault and fault['kind'] == 'handshake':
+            # no identity was established over TLS: nothing may be read,
+            # executed or answered
+            if ra['entered'] or ra['sent'] or dump_a != ra['before']:
+                flag('request-served-after-failed-handshake', why=None,
+                     entered=ra['entered'], responses=len(ra['sent']))
+        elif fault and fault['kind'] in ('timeout', 'reset', 'send_reset'):
             if ra['entered'] > len(cframes):
                 flag('executed-more-than-delivered', why=fault['kind'],
                      entered=ra['entered'], frames=len(cframes))
+            if fault['kind'] == 'send_reset':
+                # the first answer was lost with the connection error; the
+                # answers that did go out belong to the following requests
+                for f, s_ in zip(cframes[1:], ra['sent']):
+                    p = monitors.envelope_problems(s_, f, decodable(f))
+                    if p:
+                        flag('malformed-response', why=p[0], problems=p)
         else:
             if len(ra['sent']) != len(cframes):
                 flag('responses-do-not-match-framed-requests', why=None,
